@@ -166,6 +166,65 @@ fn take_chunk<T: Elem, I: ExactSizeIterator<Item = T>>(ctx: &mut Ctx, begin: usi
     let mut len_trace_ok = true;
     let mut extra_after_end = false;
     let mut k = 0usize;
+    // a chunk that is consumed completely is consumed through different parts of the Iterator interface
+    // (the choice is a function of the chunk itself, so that it is the same in every build and for every twin)
+    // (not while destructor faults are injected: what std's adaptors do with a value whose neighbour's destructor
+    // panics is not the crate's business)
+    let style = if consume == usize::MAX && DROP_PANIC_AT.load(Ordering::Relaxed) < 0 { (requested ^ begin ^ announced.wrapping_mul(7)) % 8 } else { 0 };
+    match style {
+        4 => {
+            // internal iteration (Iterator::fold)
+            let mut j = 0usize;
+            vals.by_ref().for_each(|x| {
+                let it = ctx.item(&x, begin.wrapping_add(j));
+                ctx.cur_items.push(it);
+                drop(x);
+                j += 1;
+            });
+            if vals.len() != 0 || vals.next().is_some() {
+                len_trace_ok = false;
+            }
+            drop(vals);
+            return Res::Items { begin, announced, requested, items: std::mem::take(&mut ctx.cur_items), len_trace_ok, extra_after_end };
+        }
+        5 => {
+            // every second item (Iterator::nth / advance_by): the skipped ones are released by the chunk
+            let mut j = 0usize;
+            for x in vals.by_ref().step_by(2) {
+                let it = ctx.item(&x, begin.wrapping_add(2 * j));
+                ctx.cur_items.push(it);
+                drop(x);
+                j += 1;
+            }
+            drop(vals);
+            return Res::Items { begin, announced, requested, items: std::mem::take(&mut ctx.cur_items), len_trace_ok, extra_after_end };
+        }
+        6 => {
+            // skip everything at once
+            if let Some(x) = vals.nth(announced) {
+                let it = ctx.item(&x, begin.wrapping_add(announced));
+                ctx.cur_items.push(it);
+                extra_after_end = true;
+            }
+            if vals.len() != 0 {
+                len_trace_ok = false;
+            }
+            drop(vals);
+            return Res::Items { begin, announced, requested, items: std::mem::take(&mut ctx.cur_items), len_trace_ok, extra_after_end };
+        }
+        7 => {
+            // Iterator::last consumes the chunk
+            if let Some(x) = vals.by_ref().last() {
+                let it = ctx.item(&x, begin.wrapping_add(announced.wrapping_sub(1)));
+                ctx.cur_items.push(it);
+            } else if announced > 0 {
+                len_trace_ok = false;
+            }
+            drop(vals);
+            return Res::Items { begin, announced, requested, items: std::mem::take(&mut ctx.cur_items), len_trace_ok, extra_after_end };
+        }
+        _ => {}
+    }
     while k < consume {
         let before = vals.len();
         match vals.next() {
@@ -241,6 +300,8 @@ where
             let r = it.next_chunk(*n);
             ctx.returned();
             match r {
+                // nothing was requested: nothing is said about the end
+                None if *n == 0 => ctx.close(Res::Empty),
                 None => ctx.close(Res::End),
                 Some(c) => {
                     let res = take_chunk(ctx, c.begin_idx, c.values, *n, *consume);
